@@ -360,3 +360,18 @@ package completion
 //@   requires e != nil
 //@   assigns anyof("completion.Engine", "*"), anyof("completion.group", "*"), anyof("ui.Hint", "*"), anyghost(gencount)
 //@   ensures gencount() == old(gencount()) + 1
+
+// GetBuffer / Reset (C06: the vi "cursor on a character" adjustment must act on the real line): outside a search
+// and with no candidate inserted GetBuffer hands out the real line, cursor and selection; Reset leaves an
+// incremental search and drops any inserted candidate.
+//@ func (*Engine).GetBuffer
+//@   props C06 C01
+//@   terminates
+//@   requires e != nil && e.keymap != nil
+//@   ensures [real-line-outside-a-search] e.keymap.local != "isearch" && e.isearchCur == nil && len(e.selected.Value) == 0 ==> result0 == e.line && result1 == e.cursor && result2 == e.selection
+//@ func (*Engine).Reset
+//@   props C06 C14
+//@   requires evalid(e) && keymap.kmvalid(e.keymap) && e.hint != nil && !e.isearchReplaceLine && e.isearchModeExit == "" && all(k, 0, len(e.groups), e.groups[k] != nil)
+//@   ensures [nothing-inserted-afterwards] len(e.selected.Value) == 0
+//@   ensures [incremental-search-left] e.keymap.local != "isearch" && (old(e.isearchCur == nil || e.keymap.local == "isearch") ==> e.isearchCur == nil)
+//@   ensures [same-line-objects] e.line == old(e.line) && e.cursor == old(e.cursor) && e.selection == old(e.selection)
